@@ -29,7 +29,7 @@ for l in open("/verif/design-notes/mutants/README.md"):
     m = re.match(r"\| (M\d+) \| [^|]* \| ([^|]*) \|", l)
     if m: desc[m.group(1)] = m.group(2).strip()
 desc.update({"revert-P1": "reverse of fix fcc4753 (claim with until_epoch back-dates weights)", "revert-P2": "reverse of fix ca93368 (close removes more total weight than user weight)", "revert-P3": "reverse of fix 78e4741 (zero farm fee needs two coins)", "revert-P4": "reverse of fix e63898f (stableswap spread in offer precision)",
-             "revert-P7": "reverse of fix bcca75a (D iteration stops at a 1-token step)", "revert-P8": "reverse of fix 6260abc (reverse quote through an 18-digit inverse)", "revert-P10": "reverse of fix 9137e66 (withdrawal through an 18-digit ratio)", "revert-P11": "reverse of fix bb38aab (spread from an 18-digit exchange rate)"})
+             "revert-P7": "reverse of fix bcca75a (D iteration stops at a 1-token step)", "revert-P8": "reverse of fix 6260abc (reverse quote through an 18-digit inverse)", "revert-P10": "reverse of fix 9137e66 (withdrawal through an 18-digit ratio)", "revert-P11": "reverse of fix bb38aab (spread from an 18-digit exchange rate)", "revert-P12": "reverse of fix 2068212 (deposit tolerance check sorts the stored reserve list in place)"})
 det = {}
 for l in open(results):
     m = re.match(r"(\S+)\.patch (C\d+) (DETECTED|MISSED|ERROR)", l)
